@@ -69,6 +69,18 @@ _MONTH_FULL = list(_MONTH_ABBREV_TO_FULL.values())
 _LOWERCASE_FULL = list(m.lower() for m in _MONTH_FULL)
 
 
+def _is_int_string(v: str) -> bool:
+    """Whether the string consists of digits that python can convert to an int."""
+    if not v.isdigit():
+        return False
+    try:
+        int(v)
+    except ValueError:
+        # E.g. superscript digits, or more digits than python is willing to convert
+        return False
+    return True
+
+
 class MonthLongStringMiddleware(_MonthInterpolator):
     """Replace month numbers with full month names.
 
@@ -88,7 +100,7 @@ class MonthLongStringMiddleware(_MonthInterpolator):
     # docstr-coverage: inherited
     def resolve_month_field_val(self, month_field: Field):
         v = month_field.value
-        if isinstance(v, str) and v.isdigit():
+        if isinstance(v, str) and _is_int_string(v):
             v = int(v)
         if isinstance(v, int):
             if v < 1 or v > 12:
@@ -132,7 +144,7 @@ class MonthAbbreviationMiddleware(_MonthInterpolator):
     # docstr-coverage: inherited
     def resolve_month_field_val(self, month_field: Field):
         v = month_field.value
-        if isinstance(v, str) and v.isdigit():
+        if isinstance(v, str) and _is_int_string(v):
             v = int(v)
         if isinstance(v, int):
             if v < 1 or v > 12:
@@ -180,7 +192,7 @@ class MonthIntMiddleware(_MonthInterpolator):
                     "transformed abbreviated month to int-month",
                 )
 
-        if isinstance(v, str) and v.isdigit():
+        if isinstance(v, str) and _is_int_string(v):
             if 1 <= int(v) <= 12:
                 return int(v), "cast month int-string to int"
 
